@@ -796,6 +796,17 @@ def op_let(w, ins):
     del v
     if w.den(m, a.ref) != before:
         w.fail('I-den', 'operand of let changed', owner_tags(w, 'C04'))
+    for fa, k2, ga in ins.get('more_single', []) if (kind == 'fn' and how == 'let') else []:
+        # a few more single-variable compositions on other operands (the
+        # memo of the single-variable path is keyed by node numbers: what it
+        # does depends on how the nodes happen to be numbered)
+        f2, g2 = w.pick(fa, m), w.pick(ga, m)
+        k2 %= w.nv
+        if k2 not in dec:
+            continue
+        ok, v = call(w, g.api.let, {w.names[k2]: g2.ref}, f2.ref)
+        take_result(w, m, ok, v, T.compose(f2.tt, {k2: g2.tt}), 'C04', False, 'let[fn/single, further operands]')
+        del v
     if ins.get('reuse') is not None and how in ('let', 'direct'):
         # the caller uses the very same definitions object for a second
         # operand, as in `defs = {...}; let(defs, u1); let(defs, u2)`
